@@ -258,6 +258,14 @@ Conjugate_gradient_on_the_normal_equations>`_.
     q = op.range.element()
     sqnorm_s_old = s.norm() ** 2  # Only recalculate norm after update
 
+    # For the convergence test: machine epsilon and a lower bound for the
+    # squared operator norm (||A p||^2 / ||s||^2 <= ||A s||^2 / ||s||^2)
+    try:
+        eps = np.finfo(x.dtype).eps
+    except (AttributeError, TypeError, ValueError):
+        eps = np.finfo(float).eps
+    sqnorm_op_est = 0.0
+
     for _ in range(niter):
         op(p, out=q)                       # q = A p
         sqnorm_q = q.norm() ** 2
@@ -265,6 +273,7 @@ Conjugate_gradient_on_the_normal_equations>`_.
             return
 
         a = sqnorm_s_old / sqnorm_q
+        sqnorm_op_est = max(sqnorm_op_est, sqnorm_q / sqnorm_s_old)
         x.lincomb(1, x, a, p)               # x = x + a*p
         d.lincomb(1, d, -a, q)              # d = d - a*Ap
         op.derivative(p).adjoint(d, out=s)  # s = A^T d
@@ -277,6 +286,12 @@ Conjugate_gradient_on_the_normal_equations>`_.
 
         if callback is not None:
             callback(x)
+
+        # Return if converged: `s = A^T d` is below its own rounding error
+        # `eps * ||A|| * ||d||`. From here on, `s` and `p` would consist of
+        # rounding errors only, and further steps divide noise by noise.
+        if sqnorm_s_new <= eps ** 2 * sqnorm_op_est * d.norm() ** 2:
+            return
 
 
 def exp_zero_seq(base):
